@@ -4,6 +4,7 @@ import SieveModel.Lemmas.Pos
 import SieveModel.Lemmas.Machine
 import SieveModel.Lemmas.NoCrash
 import SieveModel.Generated.Tables
+import SieveModel.Generated.LexRules
 /-!
 # C02 — Parsing always terminates with a verdict: no exception, no hang
 
@@ -27,6 +28,11 @@ Proved here (all inputs, all tables):
   with `add_commands` (DESIGN §22).
 -/
 namespace C02
+
+/-- the lexer patterns of the code are, text for text, the ones the model's recognisers were written for
+    (the termination and progress theorems below are about those recognisers) -/
+theorem lexer_patterns_are_the_modelled_ones :
+    Generated.lexRuleNames = TokKind.all.map TokKind.name ∧ Generated.lexRulePatterns = TokKind.patterns := by decide
 
 /-- the lexer always terminates with a result (never the `none` = out-of-fuel case) and produces
     at most `|text|` tokens: lexer iterations are linear in the input -/
